@@ -566,6 +566,15 @@ class Randomizer(RandIF):
             
         for c in constraint_l:
             clear_soft_priority.clear(c)
+
+        # The expansion of a dynamic expression (eg list.sum) belongs to 
+        # one call: whatever a failed call or a visitor run after the 
+        # previous solve left behind is dropped before the bounds are inferred
+        reset_v = DynamicExprResetVisitor()
+        for fm in field_model_l:
+            fm.accept(reset_v)
+        for c in constraint_l:
+            c.accept(reset_v)
             
         # Fields that are only referenced by this call are not randomized by it
         RefFieldsNonCallVisitor.lock(field_model_l, constraint_l)
